@@ -433,6 +433,10 @@ def plan(case: dict[str, Any], routes: Routes) -> list[dict[str, Any]]:
         if thm == "stokes":
             name, call = "circulation_along_surface_boundary", routes.circ_surface
             add(name, "rect", "value", 1, lambda: call(sf(u, v), (u, 0, 1), (v, 0, 1)))
+            if region.get("dim", 3) == 3:
+                bx, by = routes.bs[0], routes.bs[1]
+                add(name, "rect:base-scalars-swapped", "value", 1,
+                    lambda: call(_rect_traj(region, by, bx), (by, x0, x1), (bx, y0, y1)))
             if variant:
                 add(name, "rect", "reparam", 1,
                     lambda: call(sf(cu * u, c * v + d), (u, 0, 1 / cu), (v, -d / c, (1 - d) / c)))
@@ -454,6 +458,9 @@ def plan(case: dict[str, Any], routes: Routes) -> list[dict[str, Any]]:
                 add(name, "rect:implicit", "value", 1, lambda: call([x, y], (x, x0, x1), (y, y0, y1)))
             else:
                 add(name, "rect:implicit", "value", 1, lambda: call([x, y], (y, y0, y1), (x, x0, x1)))
+            # the same rectangle with the system's own base scalars in SWAPPED roles: the first coordinate is written with
+            # the base scalar y, the second with x (a substitution done one scalar after the other goes wrong here)
+            add(name, "rect:implicit-swapped", "value", 1, lambda: call([y, x], (y, x0, x1), (x, y0, y1)))
     elif thm == "gauss":
         rg = {n: (M.Rational(region[n][0]), M.Rational(region[n][1])) for n in "xyz"}
         (xa, xb), (ya, yb), (za, zb) = rg["x"], rg["y"], rg["z"]
